@@ -69,6 +69,7 @@ def run(ctx):
     R4 = rep.rule('C07.R4', 'one writer: swap_any is called only from EntryStorage::write', floor=1)
     R5 = rep.rule('C07.R5', 'values change only inside hot_reload unless enhance_hot_reloading(&\'static self) was called; hot_reload waits for its answer', floor=9)
     R6 = rep.rule('C07.R6', 'the closures of AssetReadGuard::map / try_map are higher-ranked over the borrow: the mapped reference cannot escape the guard', floor=2)
+    S1 = rep.rule('C08.R2', 'hot_reload waits until *its* answer is there: every raw Condvar::wait sits in the predicate loop of utils::private::Condvar::wait_while, for both lock back ends (shared with C08, wait clauses only)', floor=2)
     rep.assumptions += ['user code does not hold an AssetReadGuard across hot_reload (documented precondition of the crate)']
     for cfg, F in ctx.cfgs():
         hr = 'hot-reloading' in ctx.cfg_features[cfg]
@@ -77,7 +78,9 @@ def run(ctx):
             r2(R2, cfg, F)
             r3(R3, R4, cfg, F)
             r5(R5, cfg, F)
-            for r in (R2, R3, R4, R5):
+            from c08 import r2 as condvar_protocol
+            condvar_protocol(S1, cfg, F, only_waits=True)
+            for r in (R2, R3, R4, R5, S1):
                 r.finish_cfg(cfg)
         R1.finish_cfg(cfg)
         r6(R6, cfg, F)
